@@ -148,6 +148,11 @@ func genClientCase(t *rapid.T, hostile bool) *Case {
 					op.Opts = append(op.Opts, KV{"ctx", VStr("cancel")}, KV{"ctxns", VI64(pick(t, delays, "cancelns"))})
 				}
 				op.Opts = append(op.Opts, KV{"cancelreply", VStr(pick(t, []string{"error", "error", "none", "result", "stream"}, "cancelreply"))})
+				if hostile && pct(t, 12, "pptcall") {
+					// the application asks for payload pass-through: a valid request, an unknown
+					// scheme, an unknown serializer - against a router that may not have announced it
+					op.Opts = append(op.Opts, KV{"ppt", VStr(pick(t, []string{"x", "x", "badscheme", "badserializer", "mqtt"}, "pptkind"))})
+				}
 				if _, hasCtx := optGet(op.Opts, "ctx"); !hasCtx && pct(t, 30, "callprog") {
 					// a progressive call: the payload is fed in chunks through a callback
 					op.K = "callprog"
@@ -1381,7 +1386,18 @@ func (r *rig) runAPI(op *Op) {
 			}
 			res.result, res.err = r.cli.CallProgressive(ctx, fmt.Sprintf("p.call.n%d", ord), feed, progcb)
 		} else {
-			res.result, res.err = r.cli.Call(ctx, fmt.Sprintf("p.call.n%d", ord), nil, wamp.List{ord}, nil, progcb)
+			var callOpts wamp.Dict
+			switch optStr(op, "ppt", "") {
+			case "x":
+				callOpts = wamp.Dict{"ppt_scheme": "x_verif", "ppt_serializer": "json"}
+			case "mqtt":
+				callOpts = wamp.Dict{"ppt_scheme": "mqtt", "ppt_serializer": "cbor"}
+			case "badscheme":
+				callOpts = wamp.Dict{"ppt_scheme": "bogus", "ppt_serializer": "json"}
+			case "badserializer":
+				callOpts = wamp.Dict{"ppt_scheme": "x_verif", "ppt_serializer": "nope"}
+			}
+			res.result, res.err = r.cli.Call(ctx, fmt.Sprintf("p.call.n%d", ord), callOpts, wamp.List{ord}, nil, progcb)
 		}
 		r.mu.Lock()
 		returned = true
